@@ -81,6 +81,10 @@ def rand_mapping(rng, ids):
         k = int(rng.integers(0, 5))
         m[int(c)] = [int(rng.integers(-5, 900)), [float(np.round(rng.normal(), 6)), 1e-7, 2.0, 1e20][int(rng.integers(0, 4))],
                      STRS[int(rng.integers(0, len(STRS)))], None, STRS[int(rng.integers(0, 3))]][k]
+        if k in (0, 1) and rng.random() < 0.3:
+            # NumPy scalars (e.g. a per-cluster mean) are as good as Python numbers
+            m[int(c)] = [np.float64, np.float32, np.int64, np.int32][int(rng.integers(0, 4))](0.5 if k == 1 else 7) if k == 1 \
+                else np.int64(m[int(c)])
     return m
 
 
@@ -133,7 +137,10 @@ def _run(case, ctx, d):
                 ns=int(rng.integers(8, 40)), nt=int(rng.integers(2, 5)), nc=int(rng.integers(3, 7)), nsw=int(rng.integers(3, 6)),
                 clusters=['same', 'absent', 'curated'][int(rng.integers(0, 3))], raw_parts=int(rng.integers(1, 3)),
                 dtype_times=['uint64', 'int64'][int(rng.integers(0, 2))])
+    if rng.random() < 0.15 and opts['clusters'] != 'absent':
+        opts['dtype_ids'] = 'uint16'          # narrow on-disk id type; saved ids may exceed its range
     spec = random_spec(rng, **opts)
+    wide_ids = opts.get('dtype_ids') == 'uint16'
     ops = case['ops'] if case['ops'] is not None else rand_ops(rng)
     ops = [list(o) for o in ops] + [['reload']]
     kinds = [o[0] for o in ops]
@@ -146,6 +153,12 @@ def _run(case, ctx, d):
     ctx.sample({'opts': opts, 'ops': ops}, every=13)
     f0 = {'names': opts['names']}
     params = spec.write(d)
+    cwd0 = os.getcwd()
+    relative = case['seed'][-1] % 4 == 1
+    if relative:
+        # environment: the dataset is opened through a path relative to the working directory, which changes later
+        os.chdir(os.path.dirname(str(d)))
+        params = os.path.join(os.path.basename(str(d)), 'params.py')
     A = spec.traces_truth()
     ref = {'clusters': spec.clusters.astype(np.int64).copy(), 'fields': {}, 'foreign': {}, 'store': None}
     r = call(load_model, params)
@@ -153,6 +166,9 @@ def _run(case, ctx, d):
         ctx.violation('load_raised', desc, 'initial load_model raised %r' % r.exc, dict(f0, exc=r.exc_name), tb=r.tb)
         return
     m = r.value
+    if relative:
+        os.makedirs(os.path.join(str(d), 'elsewhere'), exist_ok=True)
+        os.chdir(os.path.join(str(d), 'elsewhere'))
     closed = False
     at_load = {'fields': {}, 'clusters': ref['clusters'].copy()}
     monitors.CURRENT.readers.register(m.traces, lambda A=A: A, label='model.traces')
@@ -163,7 +179,9 @@ def _run(case, ctx, d):
                 continue
             if k == 'clusters':
                 r2 = np.random.default_rng([op[1], 1])
-                new = curate(r2, ref['clusters'], int(r2.integers(1, 4)))
+                new = curate(r2, ref['clusters'], int(r2.integers(1, 4)), far=70000 if wide_ids else 0)
+                if wide_ids and new.max() < 65536:
+                    new[np.argmax(new)] = 65536 + int(r2.integers(0, 5000))
                 new = new.astype([np.int32, np.int64][op[1] % 2])
                 rr = call(m.save_spike_clusters, new)
                 if not rr.ok:
@@ -177,7 +195,7 @@ def _run(case, ctx, d):
                     ctx.violation('save_raised', desc, 'save_metadata(%r, %r) raised %r' % (op[1], mapping, rr.exc),
                                   dict(f0, exc=rr.exc_name, op=k), tb=rr.tb)
                     return
-                ref['fields'][op[1]] = {c: v for c, v in mapping.items() if v is not None}
+                ref['fields'][op[1]] = {c: (v.item() if isinstance(v, np.generic) else v) for c, v in mapping.items() if v is not None}
             elif k == 'meta_back':
                 mapping = at_load['fields'].get(op[1])
                 if mapping is None:
@@ -215,7 +233,7 @@ def _run(case, ctx, d):
             elif k == 'reload':
                 if not closed and i % 2:
                     call(m.close)
-                rr = call(load_model, params)
+                rr = call(load_model, os.path.join(str(d), 'params.py'))
                 if not rr.ok:
                     ctx.violation('load_raised', desc, 'load_model raised %r after %r' % (rr.exc, ops[:i]),
                                   dict(f0, exc=rr.exc_name, malformed=malformed), tb=rr.tb)
@@ -228,6 +246,7 @@ def _run(case, ctx, d):
                 if _compare(ctx, desc, f0, spec, ref, m, A, ops[:i]):
                     return
     finally:
+        os.chdir(cwd0)
         call(m.close)
 
 
